@@ -256,6 +256,10 @@ pub fn run(ctx: &mut Ctx) {
             fam::exhaustive(ctx, "handle", &cfgs, l, true, &fam::handle_ops);
             // the i-th iterator item is the i-th element, also when reached by nth / nth_back / after clones
             fam::exhaustive(ctx, "iter", &cfgs, l.min(4), false, &fam::iter_ops);
+            // typed views kept across an operation (also a splice whose replacement grows meanwhile) stay faithful views
+            fam::exhaustive(ctx, "range", &cfgs, 3, false, &fam::range_ops);
+            fam::exhaustive(ctx, "elem", &cfgs, 3, false, &fam::elem_seqs);
+            crate::special::stack_overaligned(ctx);
             scale(ctx);
         }
         "C17" => {
